@@ -165,7 +165,8 @@ func (l *Lin) key() string {
 type AtomInfo struct {
 	Desc  string
 	Range Itv
-	Where interface{} // creating ssa.Instruction (nil: entry / join)
+	Where interface{} // creating ssa.Instruction (nil: entry / join / shared memo)
+	Deps  []atomID    // unknowns this one is a function of (shared quotient / remainder / wrap unknowns)
 }
 
 type SymInfo struct {
@@ -497,43 +498,58 @@ func (s *State) prove(l *Lin) bool {
 	for _, f := range s.facts {
 		fs = append(fs, f)
 	}
-	// one fact: l = g*k + d with ub(d) <= 0 for positive multiples k (try coefficients that cancel an atom)
-	try := func(base *Lin, g *Lin) (*Lin, bool) {
-		for a, kb := range base.T {
-			kg, ok := g.T[a]
-			if !ok || (kb > 0) != (kg > 0) || kb%kg != 0 {
-				continue
-			}
-			m := kb / kg // positive
-			d := base.add(g, -m)
-			if s.linItv(d).Hi <= 0 {
-				return d, true
-			}
+	sort.Slice(fs, func(i, j int) bool { return fs[i].key() < fs[j].key() })
+	abs := func(x int64) int64 {
+		if x < 0 {
+			return -x
 		}
-		return nil, false
+		return x
 	}
-	for _, g := range fs {
-		if _, ok := try(l, g); ok {
+	// Depth-limited elimination. Goal: T <= S (all unknowns are integers).
+	// Step with a fact g <= 0 cancelling an unknown a (coefficients kb in T, kg in g, same sign):
+	//   T*|kg| - g*|kb| <= S'  and  g <= 0  give  T <= floor(S'/|kg|), so S' = S*|kg| + |kg| - 1 suffices.
+	budget := 4000
+	var search func(T *Lin, S int64, used uint64, depth int) bool
+	search = func(T *Lin, S int64, used uint64, depth int) bool {
+		if s.linItv(T).Hi <= S {
 			return true
 		}
-	}
-	// two facts
-	if len(fs) <= 40 {
-		for _, g1 := range fs {
-			for a, kb := range l.T {
-				kg, ok := g1.T[a]
-				if !ok || (kb > 0) != (kg > 0) || kb%kg != 0 {
+		if depth == 0 {
+			return false
+		}
+		for gi, g := range fs {
+			if gi < 64 && used&(1<<uint(gi)) != 0 {
+				continue
+			}
+			for a, kb := range T.T {
+				kg, ok := g.T[a]
+				if !ok || (kb > 0) != (kg > 0) || abs(kg) > 1<<16 || abs(kb) > 1<<16 || abs(S) > 1<<40 {
 					continue
 				}
-				d := l.add(g1, -(kb / kg))
-				for _, g2 := range fs {
-					if g2 == g1 {
-						continue
-					}
-					if _, ok := try(d, g2); ok {
-						return true
-					}
+				budget--
+				if budget < 0 {
+					return false
 				}
+				T2 := T.scale(abs(kg)).add(g, -abs(kb))
+				S2 := S*abs(kg) + abs(kg) - 1
+				u2 := used
+				if gi < 64 {
+					u2 |= 1 << uint(gi)
+				}
+				if search(T2, S2, u2, depth-1) {
+					return true
+				}
+			}
+		}
+		return false
+	}
+	if len(fs) <= 150 {
+		for d := 1; d <= 4; d++ {
+			if search(l, 0, 0, d) {
+				return true
+			}
+			if budget < 0 {
+				break
 			}
 		}
 	}
